@@ -68,7 +68,7 @@ func DrawProfile(property, tier string, r *PRNG) *Profile {
 	p.PGenesis = Pick(r, []float64{0, 0, 0, 0.03})
 	p.StyleRate = Pick(r, []float64{0, 0.1, 0.3})
 	p.DtMix = []float64{1, 1, 2, 8, 2, 1.5, 1, 0.4}
-	p.GenesisK = Pick(r, []string{"default", "default", "default", "seeded"})
+	p.GenesisK = Pick(r, []string{"default", "default", "default", "seeded", "zerofee"})
 	p.PTie = 0.12
 	// accounts that are not key accounts: 32-byte module / group-policy addresses, other valid lengths
 	for i, n := 0, Pick(r, []int{0, 0, 1, 2}); i < n; i++ {
@@ -162,6 +162,7 @@ func DrawProfile(property, tier string, r *PRNG) *Profile {
 		core(govKinds...)
 		core("Mint", "RegisterResolver", "DefineResolver", "CancelSell", "UpdSell", "Sell", "BasketCreate")
 		scale(p.Weights, roleKinds, 3)
+		scale(p.Weights, []string{"RegisterResolver", "DefineResolver"}, 3)
 		p.PHostile = Pick(r, []float64{0.15, 0.3, 0.45})
 		p.PStale = Pick(r, []float64{0.3, 0.5, 0.7})
 	case "C09":
